@@ -381,6 +381,20 @@ RULE_N2 = ('N2: a norm taken of an array that was explicitly flattened into a ba
            'ord=2), which equals the per-item norm only for a batch of one.')
 
 
+def _count_like(fi, e, at):
+    """the first entry of a sample's size tuple is a number of items: it is (derived from) a parameter named size / batch / num ..."""
+    from ..dataflow import reaching_defs
+    COUNT = ('size', 'batch', 'batch_size', 'num', 'num_sample', 'N', 'n_sample', 'shape')
+    names = {y.id for y in ast.walk(e) if isinstance(y, ast.Name)}
+    if names & set(COUNT) & set(fi.all_params):
+        return True
+    for nm in names:
+        for v, st, p in reaching_defs(fi.node, nm, at):
+            if v != 'param' and isinstance(v, ast.AST) and {y.id for y in ast.walk(v) if isinstance(y, ast.Name)} & set(COUNT) & set(fi.all_params):
+                return True
+    return False
+
+
 def n2(proj, rep, modules):
     rep.rule('N2', RULE_N2)
     n = 0
@@ -406,7 +420,7 @@ def n2(proj, rep, modules):
                 # a random sample drawn as a (count, dim) table is a batch of vectors as well
                 size = next((k.value for k in a.keywords if k.arg == 'size'), None) if isinstance(a, ast.Call) else None
                 sample = isinstance(a, ast.Call) and isinstance(a.func, ast.Attribute) and a.func.attr in ('normal', 'standard_normal', 'uniform', 'random', 'randn') \
-                    and isinstance(size, ast.Tuple) and len(size.elts) == 2
+                    and isinstance(size, ast.Tuple) and len(size.elts) == 2 and _count_like(fi, size.elts[0], c)
                 if not (flat or sample):
                     continue
                 n += 1
@@ -1280,6 +1294,9 @@ def fz1_so1_id1_ev1(proj, rep, modules=None):
             # FZ1
             if isinstance(x, ast.BoolOp) and isinstance(x.op, ast.Or) and isinstance(x.values[0], ast.Name) and x.values[0].id in params:
                 par = x._parent
+                zero_default = isinstance(x.values[-1], ast.Constant) and x.values[-1].value in (0, 0.0, False) and not isinstance(x.values[-1].value, str)
+                if zero_default:
+                    continue        # `n or 0` maps 0 to 0
                 if (isinstance(par, ast.Call) and isinstance(par.func, ast.Name) and par.func.id in ('int', 'float')) or isinstance(par, ast.BinOp):
                     rep.touch(m)
                     rep.violation('FZ1', fi.qual, f'`{ast.unparse(par)[:60]}`: `{x.values[0].id} or ...` treats the legitimate value 0 like a missing argument', m, x)
